@@ -323,8 +323,11 @@ func RunCheck(opt Options) int {
 		for _, t := range tg {
 			fn := ld.funcs[t.key]
 			if fn == nil {
+				// a function the proof of this property rests on no longer exists: its contract cannot be discharged
 				fmt.Printf("CONTRACT-STALE: function %s (contract at %s:%d) not found in current source\n", t.key, t.fc.File, t.fc.Line)
-				stale = true
+				ob := &Obligation{Name: t.key + "#missing", Kind: "subset", Func: t.key, Clause: "function under contract not found in the current source", pairs: [][2]*Term{{True, False}}}
+				allObs = append(allObs, obResult{ob, t.fc})
+				reports = append(reports, FuncReport{Name: t.key, OutOfSubset: "function not found", Obligations: 1})
 				continue
 			}
 			v := NewVerifier(ld.prog, ld.fset, cs)
@@ -338,11 +341,8 @@ func RunCheck(opt Options) int {
 			err := v.VerifyFunction(fn, t.fc)
 			rep.Seconds = time.Since(f0).Seconds()
 			if err != nil {
-				if strings.Contains(err.Error(), "CONTRACT-STALE") {
-					fmt.Printf("%s: %v\n", t.key, err)
-					stale = true
-					continue
-				}
+				// a contract that can no longer be evaluated against the code (a name it mentions is gone) is an
+				// undischarged obligation of this property, like a function outside the subset
 				rep.OutOfSubset = err.Error()
 				fmt.Printf("govc: %s: out of subset: %v\n", t.key, err)
 				// an out-of-subset function generates one undischargeable obligation so that it cannot be counted as proved
